@@ -158,6 +158,13 @@ func (x *Ctx) resolveCas(op *GenOp) uint64 {
 		return 414141
 	case "never":
 		return 777
+	case "sibkey":
+		// the current CAS of the other key of the same collection
+		other := map[string]string{"k1": "k2", "k2": "k1"}[op.Key]
+		if o := x.known(op.Coll, other); o.cur != 0 && o.cur != ki.cur {
+			return o.cur
+		}
+		return 454545
 	}
 	panic("bad cas class " + op.Casc)
 }
@@ -172,6 +179,20 @@ func (x *Ctx) resolveNewCas(op *GenOp) uint64 {
 			return ki.cur - 1
 		}
 		return x.maxCas() - 1
+	case "sib":
+		// exactly the CAS the same key carries in another collection
+		var sib uint64
+		for _, c := range collNames {
+			if c != op.Coll {
+				if o := x.known(c, op.Key); o.cur > sib && o.cur != ki.cur {
+					sib = o.cur
+				}
+			}
+		}
+		if sib != 0 {
+			return sib
+		}
+		return x.maxCas() + (1 << 24)
 	case "low":
 		return 5000 + uint64(len(ki.older))
 	case "far":
